@@ -56,7 +56,6 @@ class LocalAdapter(Hub):
         j = J()
         j.name, j.id, j.deps = name, tid, list(deps)
         self.world._note_accepted(j)
-        self.world.job_gen[tid] = self.generation
 
     def on_spawn(self, proc):
         keys = self.by_script.get(proc.script) or []
@@ -79,36 +78,34 @@ class LocalAdapter(Hub):
     def on_signal(self, proc, sig):
         pass
 
-    def job(self, tid):
-        return self.jobs.get((self.world.job_gen.get(tid, self.generation), tid))
-
-    def phase(self, tid):
+    def phase(self, key):
         """pending | running | done, from the pool's published state (current pool only)."""
-        jb = self.job(tid)
+        jb = self.jobs.get(key)
         if jb is None or jb["gen"] != self.generation:
             return "done" if jb is not None else None
-        st = self.pool.st_name(tid)
+        st = self.pool.st_name(key[1])
         if st == "SUBMITTED":
             return "pending"
         if st == "RUNNING":
             return "running"
         return "done"
 
-    def result(self, tid):
-        jb = self.job(tid)
+    def result(self, key):
+        jb = self.jobs.get(key)
         if jb is None:
             return None
         if jb["gen"] != self.generation:
             return jb.get("last_result", "lost")
-        st = self.pool.st_name(tid)
+        st = self.pool.st_name(key[1])
         return {"COMPLETED": "ok", "FAILED": "failed", "KILLED": "timeout", "CANCELLED": "cancelled"}.get(st)
 
-    def observable(self, tid):
-        """What an ideal client of the CURRENT pool would be told about the job gwf was given id `tid` for."""
-        jb = self.job(tid)
+    def observable(self, key):
+        """What an ideal client would be told about the target's own latest job: a pool that was restarted
+        has no record of it."""
+        jb = self.jobs.get(key) if key is not None else None
         if jb is None or jb["gen"] != self.generation:
             return "none"  # the pool that ran it is gone
-        st = self.pool.st_name(tid)
+        st = self.pool.st_name(key[1])
         return STATE_MAP.get(st, "none")
 
     # ---------------------------------------------------------------- Hub interface (client side)
